@@ -438,6 +438,10 @@ func (r *R) Finish() int {
 	sort.SliceStable(unknown, func(i, j int) bool { return unknown[i].Key < unknown[j].Key })
 
 	exhaustive := len(r.Incomplete) == 0 && len(r.HarnessErr) == 0
+	if r.Nontriv > r.Evals {
+		// a non-trivial case is an evaluated case; a check that counts otherwise is miscounting (conservative side)
+		r.Nontriv = r.Evals
+	}
 	cov := map[string]any{
 		"evaluations":         r.Evals,
 		"distinct_nontrivial": r.Nontriv,
